@@ -358,6 +358,16 @@ def r19_3(ctx):
                     ok = is_call(v, 'Fn::call') and any(x[0] == 'field' and x[2] == '1' and any(is_call(y, 'last_mut') for y in walk(x)) for x in walk(v)) and any(x[0] == 'field' and x[2] == '1' and any(is_call(y, '::next') for y in walk(x)) for x in walk(v))
                 ctx.check(R, ok and not pushes, 'in-batch-merge', 'a key repeated within one batch must have its values combined by the merger (kept value := merger(kept value, new value)), exactly like keys repeated across batches', fn=g)
     if n == 0:
+        # is the merger applied at all in the first phase?  (then the form of the repeated-key test is one the rule does not follow)
+        applied = False
+        for g in cands + [b.fns[q] for q in b.fns if '{closure' in q and any(q.startswith(c.path + '::') for c in cands)]:
+            for _, t in g.calls():
+                c = g.callee(t) or g.callee_decl(t) or ''
+                if c.endswith('Fn::call') or c.endswith('FnMut::call_mut') or c.endswith('FnOnce::call_once'):
+                    applied = True
+        if applied:
+            ctx.undecided(R, 'in-batch-merge', 'the first-phase batch applies the merger, but the repeated-key test is not in a recognised form', fn=kv)
+            return
         ctx.violation(R, 'in-batch-merge', 'no path of the first-phase batch combines the values of a repeated key with the merger: in-batch repeats are resolved differently from cross-batch repeats', fn=kv)
     # builder errors propagate
     for f in (kv, b.fn(UN)):
